@@ -140,7 +140,11 @@ struct ISpline
     virtual VectorXd partialT(bool refOverload) const = 0;
     virtual Grads propagate(const MatrixXd &gC, const VectorXd &gT, bool refOverload) = 0;
     // refOverload variant writing into a Gradients object that already holds (stale) data of another size
-    virtual Grads propagateIntoStale(const MatrixXd &gC, const VectorXd &gT, int staleRows) = 0;
+    virtual Grads propagateIntoStale(const MatrixXd &gC, const VectorXd &gT, int staleRows) = 0; // staleRows < 0: same shape as the result
+    // reference overloads writing into caller-owned objects that already hold other (stale, non-zero) content
+    virtual MatrixXd partialCStale(bool sameShape) const = 0;
+    virtual VectorXd partialTStale(bool sameShape) const = 0;
+    virtual Grads energyGradStale(bool sameShape) const = 0;
     virtual VectorXd trajEval(double t, int k) const = 0;       // getTrajectory().evaluate
     virtual VectorXd ppolyEval(double t, int k) const = 0;      // getPPoly().evaluate
     virtual VectorXd segEval(int i, double tl, int k) const = 0; // getTrajectory()[i].evaluate
